@@ -17,11 +17,12 @@
 EXTENDS AddrCodec, Json, IOUtils
 
 Rec == ndJsonDeserialize(IOEnv.TRACE)
-VARIABLE l
-Init == l \in 1..Len(Rec)
-Next == UNCHANGED l
+\* TLC does not cache Rec: the record of a line is carried in the state so the file is parsed once
+VARIABLES l, rec
+Init == LET R == Rec IN \E i \in 1..Len(R) : l = i /\ rec = R[i]
+Next == UNCHANGED <<l, rec>>
 
-Report(what, detail) == PrintT(<<"MISMATCH", ToJson([line |-> l, id |-> Rec[l].id, what |-> what, detail |-> detail])>>)
+Report(what, detail) == PrintT(<<"MISMATCH", ToJson([line |-> l, id |-> rec.id, what |-> what, detail |-> detail])>>)
 
 Outcome(p) == IF p.ok THEN [ok |-> TRUE, addr |-> NormAddr(p.addr)] ELSE [ok |-> FALSE]
 Shape(d)   == IF d.ok THEN [ok |-> TRUE, addr |-> d.addr] ELSE [ok |-> FALSE]
@@ -50,7 +51,7 @@ ParseStrChecks(r) ==
                                     dev |-> DevFor(r.s, Outcome(r.parsed))]))
 
 LineOk ==
-  LET r == Rec[l] IN
+  LET r == rec IN
   CASE r.ev = "Addr" -> AddrChecks(r)
     [] r.ev = "ParseStr" -> ParseStrChecks(r)
     [] OTHER -> TRUE
